@@ -68,7 +68,16 @@ class Machine(object):
   # ------------------------------------------------------------- resources
   def dataset(self, key):
     if key not in self.data:
-      self.data[key] = make_data(self.plan["datasets"][key])
+      desc = self.plan["datasets"][key]
+      live = None
+      if desc.get("view_of"):
+        from .core import canon
+        want = canon(desc["view_of"])
+        for k2, d2 in self.plan["datasets"].items():
+          if k2 != key and not d2.get("view_of") and canon(d2) == want:
+            live = self.dataset(k2)       # the view shares memory with the live base store
+            break
+      self.data[key] = make_data(desc, live_base=live)
     return self.data[key]
 
   def resolve(self, v):
